@@ -405,3 +405,19 @@ package lua
 //@ loop 1 invariant forall k int :: 0 <= k && k < top(ls) ==> ls.reg.array[k] == old(ls.reg.array[k])
 //@ loop 1 invariant forall k int :: 0 <= k && k < old(top(other)) ==> other.reg.array[k] == old(other.reg.array[k])
 //@ loop 1 invariant forall k int :: old(top(other)) <= k && k < top(other) ==> other.reg.array[k] == old(ls.reg.array[top(ls) - xm(ls, n) + k - top(other)])
+
+// coroutine.resume: a coroutine that is running, dead or normal (waiting for a coroutine it resumed) is never
+// resumed: threadRun is not called (ghost call log) and, for a plain coroutine, (false, message) is returned.
+//@ trusted threadRun [C06]
+//@ assume threadRun runs the coroutine body (arbitrary Lua code); recorded in the ghost call log with the thread's Parent and the current thread at the call
+//@ logged pre: L.Parent, L.G.CurrentThread
+//@ modifies everything
+
+//@ func coResume [C06]
+//@ requires Inv_gfn(L) && isTh(arg(L, 1)) && th(arg(L, 1)) != nil && L.G.CurrentThread != nil && th(arg(L, 1)).G == L.G
+//@ assert@"th.Parent = L" !th.Dead && L.G.CurrentThread != th && !ancestor(L.G.CurrentThread, th)
+//@ cut@"if !th.isStarted() {" the argument transfer of a legitimate resume is covered by XMoveTo/initCallFrame; only the guards are decided here
+//@ ensures  "never-resumed": old(th(arg(L, 1)).Dead || L.G.CurrentThread == th(arg(L, 1)) || ancestor(L.G.CurrentThread, th(arg(L, 1)))) ==> ncalls() == old(ncalls()) && result == 2 && top(L) == old(top(L)) + 2 && pushed(L, 0) == LFalse && isStr(pushed(L, 1))
+//@ ensures  old(th(arg(L, 1)).Dead || L.G.CurrentThread == th(arg(L, 1)) || ancestor(L.G.CurrentThread, th(arg(L, 1)))) ==> L.G.CurrentThread == old(L.G.CurrentThread) && th(old(arg(L, 1))).Parent == old(th(arg(L, 1)).Parent)
+//@ raises when th(arg(L, 1)).wrapped || top(L) + 2 > cap(L.reg.array)
+//@ modifies everything
